@@ -124,23 +124,13 @@ def X2(ctx):
     sel = set()
     for k in reach:
         for (b_, t_, c_) in prog.sites(prog.ident(k)):
-            if callee_path(t_) == "std::iter::Iterator::find":
+            if callee_path(t_) in ("std::iter::Iterator::find", "std::iter::Iterator::position"):
                 ck_ = _closure_arg(arg_expr_call(prog.fns[k].body, t_))
                 if ck_ and ck_ in prog.fns:
                     for (ce, cpol) in true_conditions(prog, ck_):
                         if cpol and ce[0] == "call" and ce[1] in (PT + "::is_active", PT + "::is_pending"):
                             sel.add(ce[1].split("::")[-1][3:].capitalize())
-                    cb_ = prog.fns[ck_].body
-                    for x_ in deep_sources(cb_, cb_.expr_of_local(0)):
-                        vt = variant_test(x_)
-                        if vt and vt[2]:
-                            sel.add(vt[1])
-                    for bb_ in blocks_assigning_ret(cb_, lambda e_: is_const_bool(e_, True)):
-                        for (ge, pol, v, sb) in guard_atoms(cb_, bb_):
-                            if ge[0] == "discr" and ge[2] == PT and not isinstance(v, tuple):
-                                nm = dict((x_, y_) for (x_, y_) in (ge[3] or [])).get(v)
-                                if nm:
-                                    sel.add(nm)
+                    sel |= _selected_states(prog, ck_)
     if PT + "::is_active" in calls:
         sel.add("Active")
     if PT + "::is_pending" in calls:
@@ -297,6 +287,13 @@ def _selected_states(prog, ck):
                 sel.add(vt[1])
             if x_[0] == "call" and x_[1] in (PT + "::is_pending", PT + "::is_active"):
                 sel.add(x_[1].split("::")[-1][3:].capitalize())
+        # `matches!(th, Thread::X)`: the closure returns true on the X edge of a switch on the discriminant
+        for b_ in ret_const_blocks(cb_, True):
+            for (ge, pol, v, sb) in guard_atoms(cb_, b_):
+                if ge[0] == "discr" and ge[2] == PT and not isinstance(v, tuple):
+                    nm = variant_of_discr_value(prog, ge, v)
+                    if nm:
+                        sel.add(nm)
     return sel
 
 
@@ -782,6 +779,18 @@ def E2(ctx):
             ctx.bad("E2", bk, "initial_active is not recorded for new branches", bfn.loc(), detail="initial_active")
 
 
+def _edge_is_variant(ge, v, name):
+    """The switch edge with value v (a discriminant value, or ("not", values) for the otherwise edge) is taken exactly for the
+    variant `name`."""
+    names = dict((x, y) for (x, y) in (ge[3] or []))
+    if not isinstance(v, tuple):
+        return names.get(v) == name
+    if v[0] == "not":
+        rest = [n for (x, n) in names.items() if x not in v[1]]
+        return rest == [name]
+    return False
+
+
 def _zero_only_without_prev(body, some_subj):
     """No definition of the inherited count is the literal 0 on a path where the previous branch exists: literal-0 definitions
     (other than the default argument of unwrap_or) must lie on the None edge of the `prev` switch."""
@@ -793,7 +802,7 @@ def _zero_only_without_prev(body, some_subj):
                 continue
             de = body.expr_of_rvalue(st2["rv"])
             if de[0] == "const" and de[1].get("int") == 0 and len(body.defs().get(st2["lhs"]["l"], [])) > 1:
-                on_none = any(ge[0] == "discr" and not isinstance(v, tuple) and dict((x, y) for (x, y) in (ge[3] or [])).get(v) == "None"
+                on_none = any(ge[0] == "discr" and _edge_is_variant(ge, v, "None")
                               and canon(ge[1]) in some_subj for (ge, pol, v, sb) in guard_atoms(body, b2))
                 if not on_none:
                     return False
